@@ -396,7 +396,15 @@ def install(eng):
 
     eng.rules[_json.load] = r_json_load
     eng.rules[_json.dump] = r_json_dump
-    eng.str_hooks["Path"] = lambda e, v: v     # str(path-like) is the path text
+    _r_str = eng.rules[str]
+
+    def r_str_path(e, args, kw, st, sink, n):
+        if args and args[0].ty == vc.Path:
+            yield st, args[0]      # str(path-like) is the path text (same abstract sort)
+        else:
+            yield from _r_str(e, args, kw, st, sink, n)
+
+    eng.rules[str] = r_str_path
 
     import gwf.backends.exceptions as _bex
     for _n in ("BackendError", "TargetError", "UnsupportedOperationError"):
